@@ -305,6 +305,7 @@ class Ctx:
         self.next_tag = 0
         self.feats = {}
         self.last_sorted = None
+        self.input_changed = None      # set by an op whose OTHER inputs (not the receiver) were changed by the call
 
     def tags(self, n):
         t = list(range(self.next_tag, self.next_tag + n))
@@ -647,8 +648,14 @@ def do_step(op, ss, ctx, case_rng_seed):
         term = f"(OConcat {clist(terms)})"
 
         def run():
+            snaps = [observe(x) for x in others]
             try:
-                return dimod.concatenate([ss] + others)
+                res = dimod.concatenate([ss] + others)
+                # concatenate reads its inputs: every one of them (not only the first) must be left as it was
+                # (round-6 miss C14 r6m3: a later caller-owned input re-ordered in place)
+                if [observe(x) for x in others] != snaps:
+                    ctx.input_changed = "dimod.concatenate changed one of its input sample sets"
+                return res
             except TypeError as e:
                 if 'Incompatible type' in str(e):
                     raise Skip()
@@ -740,8 +747,11 @@ def run_seq(c):
             dterm = clist([] if defaults is None else [cpair(cnat(FIELD_ID[nm]), cq(F(v))) for nm, v in zip(op["defaults"], op["dvals"])])
             before = observe(ss)
             arg = [ss] + others
+            osnaps = [observe(x) for x in others]
             try:
                 res = dimod.concatenate((x for x in arg) if op["generator"] else arg, defaults=defaults)
+                if [observe(x) for x in others] != osnaps:
+                    fail = fail or "dimod.concatenate changed one of its input sample sets"
                 post = coq_ss(observe(res), T)
                 nontrivial = nontrivial or len(res) > 0
                 if any(np.shares_memory(res.record, x.record) for x in arg):
@@ -817,6 +827,8 @@ def run_seq(c):
                 fail = fail or f"receiver changed by a raising non-in-place {op['op']}"
         else:
             nontrivial = nontrivial or len(new) > 0
+            if ctx.input_changed:
+                fail = fail or ctx.input_changed
             if inplace:
                 if new is not ss:
                     fail = fail or f"in-place {op['op']} did not return the receiver"
